@@ -115,6 +115,15 @@ def stat_structure(prog, run, fi):
             continue
         x = astq.expand(fi, e)
         stds = [n for n in ast.walk(x) if isinstance(n, ast.Call) and astq.callee_name(prog, fi, n) in ("numpy.std", "numpy.nanstd", ".std")]
+        # dispersion = std(X) / mean(X) of the SAME stacked values
+        okq = False
+        if isinstance(x, ast.BinOp) and isinstance(x.op, ast.Div) and isinstance(x.left, ast.Call) and astq.callee_name(prog, fi, x.left) in ("numpy.std", "numpy.nanstd", ".std"):
+            ismean, how = _mean_form(prog, fi, x.right)
+            arr_s = x.left.args[0] if not astq.callee_name(prog, fi, x.left).startswith(".") else x.left.func.value
+            r = astq.expand(fi, x.right)
+            arr_m = (r.args[0] if isinstance(r, ast.Call) and r.args and not astq.callee_name(prog, fi, r).startswith(".") else (r.func.value if isinstance(r, ast.Call) and isinstance(r.func, ast.Attribute) else None))
+            okq = bool(ismean) and arr_m is not None and astq.dump(astq.expand(fi, arr_s)) == astq.dump(astq.expand(fi, arr_m))
+        run.ob("R-std", fi.qual, f"{field} = std / mean of the same per-setup values", okq, f"`{astq.src(x, 90)}`", witness=astq.src(x, 70), file=f, node=e)
         if not stds:
             run.ob("R-std", fi.qual, field, False, f"{field} = `{astq.src(x, 80)}` does not contain a standard deviation", witness="no-std", file=f, node=e)
             continue
@@ -125,3 +134,28 @@ def stat_structure(prog, run, fi):
             ok = (ddof is None or (isinstance(ddof, ast.Constant) and ddof.value == 0)) and isinstance(ax, ast.Constant) and ax.value == 0
             why = f"{field}: `{astq.src(sc, 70)}`"
             run.ob("R-std", fi.qual, field, ok, why if ok else why + " is not the population std over axis 0", witness=astq.src(sc, 70), file=f, node=sc)
+
+
+G, MU = "functions.gen", "setup.multi"
+MUTANTS = [
+    ("C02-m01 inverse scale factor", G, "merge_mode_shapes", "MSF(phi_ref_i_k, phi_ref_1_k)", "MSF(phi_ref_1_k, phi_ref_i_k)"),
+    ("C02-m02 factor squared", G, "merge_mode_shapes", "alpha_i_k * phi_rov_i_k", "alpha_i_k ** 2 * phi_rov_i_k"),
+    ("C02-m03 sample standard deviation", MU, "MultiSetup_PoSER.merge_results", "np.std(all_fn, axis=0)", "np.std(all_fn, axis=0, ddof=1)"),
+    ("C02-m04 dispersion not divided by the mean", MU, "MultiSetup_PoSER.merge_results", "xi_cov = np.std(all_xi, axis=0) / xi_mean", "xi_cov = np.std(all_xi, axis=0)"),
+    ("C02-m05 roving block prepended", G, "merge_mode_shapes", "np.hstack((merged_mode_k, alpha_i_k * phi_rov_i_k))", "np.hstack((alpha_i_k * phi_rov_i_k, merged_mode_k))"),
+    ("C02-m06 first setup's reference list for every setup", G, "merge_mode_shapes", "ref_ind = reflist[i]", "ref_ind = reflist[0]"),
+    ("C02-m07 median instead of mean", MU, "MultiSetup_PoSER.merge_results", "fn_mean = np.mean(all_fn, axis=0)", "fn_mean = np.median(all_fn, axis=0)"),
+    ("C02-m08 roving rows of the first setup forgotten", G, "merge_mode_shapes", "np.concatenate((phi_ref_1_k, np.delete(phi_1_k, reflist[0])))", "np.concatenate((phi_ref_1_k, phi_1_k))"),
+    ("C02-m09 flattened names: references last", G, "flatten_sns_names", "k = len(ref_ind[0])", "k = len(ref_ind[-1])"),
+    ("C02-m10 names skipped with the first setup's reference indices", G, "flatten_sns_names", "j not in ref_ind[i]", "j not in ref_ind[0]"),
+    ("C02-m11 MSF returns the ratio of norms", G, "MSF", "_msf = np.dot(phi_2[:, i].T, phi_1[:, i]) / np.dot(phi_1[:, i].T, phi_1[:, i])", "_msf = np.dot(phi_2[:, i].T, phi_2[:, i]) / np.dot(phi_1[:, i].T, phi_1[:, i])"),
+    ("C02-m12 std over the mode axis", MU, "MultiSetup_PoSER.merge_results", "np.std(all_fn, axis=0)", "np.std(all_fn, axis=1)"),
+    ("C02-m13 reference rows in ascending order", G, "merge_mode_shapes", "phi_ref_i_k = MSarr_list[i][ref_ind, k]", "phi_ref_i_k = MSarr_list[i][np.isin(np.arange(MSarr_list[i].shape[0]), reflist[i]), k]"),
+]
+REWRITES = [
+    ("rename:C02-r01", G, "merge_mode_shapes", "alpha_i_k", "scale"),
+    ("C02-r02 method mean", MU, "MultiSetup_PoSER.merge_results", "fn_mean = np.mean(all_fn, axis=0)", "fn_mean = all_fn.mean(axis=0)"),
+    ("C02-r03 explicit ddof=0", MU, "MultiSetup_PoSER.merge_results", "np.std(all_fn, axis=0)", "np.std(all_fn, axis=0, ddof=0)"),
+    ("C02-r04 concatenate instead of hstack", G, "merge_mode_shapes", "np.hstack((merged_mode_k, alpha_i_k * phi_rov_i_k))", "np.concatenate((merged_mode_k, alpha_i_k * phi_rov_i_k))"),
+    ("C02-r05 roving rows by complement mask", G, "merge_mode_shapes", "phi_rov_i_k = np.delete(phi_i_k, ref_ind, axis=0)", "phi_rov_i_k = phi_i_k[~np.isin(np.arange(phi_i_k.shape[0]), ref_ind)]"),
+]
